@@ -1261,11 +1261,18 @@ async fn supersede(
 
     let old_row = assertion_mut(tx, old).await?;
     let proposition = old_row.proposition_id.clone();
+    // A no-effect final state changes nothing (see the `tx` module docs):
+    // repeating a supersession that is already on record must not burn a
+    // version or emit a change record.
+    let mut old_changed = old_row.status != "superseded";
     old_row.status = "superseded".to_string();
     if !old_row.superseded_by.contains(&new.to_string()) {
         old_row.superseded_by.push(new.to_string());
+        old_changed = true;
     }
-    tx.mark_changed(old, "supersede");
+    if old_changed {
+        tx.mark_changed(old, "supersede");
+    }
 
     let new_row = assertion_mut(tx, new).await?;
     // Supersession is belief revision within one lineage, so the replacement
@@ -1311,11 +1318,15 @@ async fn correct_evidence(
     // observation stays exactly as observed, because what a source said is a
     // historical fact even when it was wrong.
     let old_row = evidence_mut(tx, old).await?;
+    let mut old_changed = old_row.status != "corrected";
     old_row.status = "corrected".to_string();
     if !old_row.corrected_by.contains(&new.to_string()) {
         old_row.corrected_by.push(new.to_string());
+        old_changed = true;
     }
-    tx.mark_changed(old, "correct");
+    if old_changed {
+        tx.mark_changed(old, "correct");
+    }
 
     let new_row = evidence_mut(tx, new).await?;
     if !new_row.corrects.contains(&old.to_string()) {
@@ -1374,6 +1385,11 @@ async fn transition(
         )));
     }
 
+    let before = (
+        row.status.clone(),
+        row.outputs.clone(),
+        row.ended_at.clone(),
+    );
     let mut fields = Fields(set_fields);
     let outputs = fields.array("outputs")?;
     if !outputs.is_empty() {
@@ -1391,7 +1407,11 @@ async fn transition(
     } else if !ended.is_empty() {
         row.ended_at = ended;
     }
-    tx.mark_changed(id, "transition");
+    // A transition to the state the Activity is already in, with nothing new
+    // to record, is a no-effect final state.
+    if (row.status.clone(), row.outputs.clone(), row.ended_at.clone()) != before {
+        tx.mark_changed(id, "transition");
+    }
     Ok(())
 }
 
